@@ -2,21 +2,27 @@
 // parts of the hand model Model/EvmProof.v -> Gen/EvmProofSchemaGen.v
 //
 // For each of the two client packages x/xibc/clients/light-clients/{eth,bsc}/types:
-//  1. the fields of the structs Proof and StorageResult (<c>.pb.go): Go name, Go type, json tag name -- the record
-//     [proof_rec] / [storage_result] of the model and the honest rendering relayers have to produce;
-//  2. the fields of the struct ProofAccount (<c>.go), in declaration order = the order of the RLP list that
-//     verifyMerkleProof compares with the value of the state trie -- [rlp_account] of the model;
-//  3. from func verifyMerkleProof (client_state.go): how each ProofAccount field is computed from the proof record
-//     (common.HexToHash(P.F) or common.HexToHash(P.F).Big()) -- [account_of_record] of the model -- and the number
-//     the length of P.StorageProof is compared with;
-//  4. the constants paramsIndex and paramsLenght (keys.go) -- [pad32_208] of the model.
+//  1. the fields of the structs Proof and StorageResult (any non-test file of the package): Go name, Go type, json tag
+//     name -- the record [proof_rec] / [storage_result] of the model and the honest rendering relayers produce;
+//  2. the fields of the struct ProofAccount, in declaration order = the order of the RLP list that the verification
+//     compares with the value of the state trie -- [rlp_account] of the model;
+//  3. from func verifyMerkleProof AND every function / method of the package it calls, transitively: how each
+//     ProofAccount field is computed from the proof record (common.HexToHash(P.F) or common.HexToHash(P.F).Big()) --
+//     [account_of_record] of the model -- and the number the length of P.StorageProof is compared with;
+//  4. the constants paramsIndex and paramsLenght (any file of the package) -- [pad32_208] of the model.
 //
-// Subset handled in verifyMerkleProof: `v := common.HexToHash(<param>.<Field>)`, `v := common.HexToHash(<param>.<Field>).Big()`,
-// one composite literal `&ProofAccount{Key: ident, ...}` (keyed, identifiers bound as above) or unkeyed in field
-// order, one comparison `len(<param>.StorageProof) != <int literal>`.  Anything else goes into
-// [evmproof_translator_errors] of the generated file: the obligation [C08_schema_matches_go_source] then computes to
-// false -- a failed tie of C08 only, without stopping the proof stages of other properties.
-// go/parser + go/ast only; no type checking.
+// Item 3 is a small symbolic evaluation: the first parameter of verifyMerkleProof is the proof record; local variables
+// (:=, =, var), field selections, common.HexToHash(x), x.Big(), x.Bytes(), indexing, &x, *x, parentheses and calls of
+// package-level functions / methods (arguments substituted for parameters, the returned values flowing back into
+// the caller's variables; of several return statements the ones returning zero values are error exits) are followed;
+// every other expression is opaque.  Control structure (if / switch / for / blocks) is walked in source order.  Where the
+// ProofAccount value is built (inline, in a helper, keyed or unkeyed literal, fields given as variables or as
+// expressions) does not matter.
+//
+// The translator never fails: an item it cannot determine is emitted as an entry with conversion "unknown" (wiring), as
+// the number 0 (storage proof count: the code compares with 1; constants: 208 and 32) or as an empty field list, with the
+// reason in a comment and in [evmproof_notes]; only the obligation of Props/C08_schema.v that reads that item then
+// computes to false.  go/parser + go/ast only; no type checking.
 package main
 
 import (
@@ -29,13 +35,14 @@ import (
 	"os"
 	"path/filepath"
 	"reflect"
+	"sort"
 	"strconv"
 	"strings"
 )
 
-var errs []string
+var notes []string
 
-func fail(f string, a ...interface{}) { errs = append(errs, fmt.Sprintf(f, a...)) }
+func note(f string, a ...interface{}) { notes = append(notes, fmt.Sprintf(f, a...)) }
 
 // text placed inside a Coq comment
 func cmt(s string) string {
@@ -64,207 +71,700 @@ func typeString(e ast.Expr) string {
 		if e.Len == nil {
 			return "[]" + typeString(e.Elt)
 		}
+		return "[...]" + typeString(e.Elt)
 	case *ast.StarExpr:
 		return "*" + typeString(e.X)
+	case *ast.ParenExpr:
+		return typeString(e.X)
 	}
 	return "?"
 }
 
-type field struct{ name, typ, json string }
+// ----------------------------------------------------------------------------------------------------
+// package: all non-test files
+// ----------------------------------------------------------------------------------------------------
 
-func structFields(f *ast.File, name, where string) []field {
-	var out []field
-	found := false
-	for _, d := range f.Decls {
-		gd, ok := d.(*ast.GenDecl)
-		if !ok || gd.Tok != token.TYPE {
+type pkg struct {
+	where string
+	files []*ast.File
+	funcs map[string]*ast.FuncDecl // package-level functions by name
+	meths map[string]*ast.FuncDecl // methods by name (ambiguous names are dropped)
+}
+
+func loadPkg(fset *token.FileSet, repo, dir string) *pkg {
+	p := &pkg{where: dir, funcs: map[string]*ast.FuncDecl{}, meths: map[string]*ast.FuncDecl{}}
+	ents, err := os.ReadDir(filepath.Join(repo, dir))
+	if err != nil {
+		note("%s: %v", dir, err)
+		return p
+	}
+	ambiguous := map[string]bool{}
+	for _, e := range ents {
+		n := e.Name()
+		if e.IsDir() || !strings.HasSuffix(n, ".go") || strings.HasSuffix(n, "_test.go") || strings.HasSuffix(n, "_verif.go") ||
+			strings.HasSuffix(n, ".pb.gw.go") {
 			continue
 		}
-		for _, sp := range gd.Specs {
-			ts := sp.(*ast.TypeSpec)
-			st, ok := ts.Type.(*ast.StructType)
-			if !ok || ts.Name.Name != name {
+		f, err := parser.ParseFile(fset, filepath.Join(repo, dir, n), nil, 0)
+		if err != nil {
+			note("%s/%s: %v", dir, n, err)
+			continue
+		}
+		p.files = append(p.files, f)
+		for _, d := range f.Decls {
+			fd, ok := d.(*ast.FuncDecl)
+			if !ok || fd.Body == nil {
 				continue
 			}
-			found = true
-			for _, fl := range st.Fields.List {
-				tag := ""
-				if fl.Tag != nil {
-					if s, err := strconv.Unquote(fl.Tag.Value); err == nil {
-						tag = strings.Split(reflect.StructTag(s).Get("json"), ",")[0]
-					}
-				}
-				if len(fl.Names) == 0 {
-					fail("%s: struct %s has an embedded field", where, name)
-					continue
-				}
-				for _, n := range fl.Names {
-					out = append(out, field{n.Name, typeString(fl.Type), tag})
-				}
+			if fd.Recv == nil {
+				p.funcs[fd.Name.Name] = fd
+			} else if _, dup := p.meths[fd.Name.Name]; dup {
+				ambiguous[fd.Name.Name] = true
+			} else {
+				p.meths[fd.Name.Name] = fd
 			}
 		}
 	}
-	if !found {
-		fail("%s: struct %s not found", where, name)
+	for n := range ambiguous {
+		delete(p.meths, n)
 	}
-	return out
+	return p
 }
 
-func intConst(f *ast.File, name, where string) int64 {
-	for _, d := range f.Decls {
-		gd, ok := d.(*ast.GenDecl)
-		if !ok || gd.Tok != token.CONST {
-			continue
-		}
-		for _, sp := range gd.Specs {
-			vs := sp.(*ast.ValueSpec)
-			for i, n := range vs.Names {
-				if n.Name != name || i >= len(vs.Values) {
+type field struct{ name, typ, json string }
+
+func (p *pkg) structFields(name string) ([]field, bool) {
+	for _, f := range p.files {
+		for _, d := range f.Decls {
+			gd, ok := d.(*ast.GenDecl)
+			if !ok || gd.Tok != token.TYPE {
+				continue
+			}
+			for _, sp := range gd.Specs {
+				ts := sp.(*ast.TypeSpec)
+				st, ok := ts.Type.(*ast.StructType)
+				if !ok || ts.Name.Name != name {
 					continue
 				}
-				if bl, ok := vs.Values[i].(*ast.BasicLit); ok && bl.Kind == token.INT {
-					if v, err := strconv.ParseInt(bl.Value, 0, 64); err == nil {
-						return v
+				var out []field
+				for _, fl := range st.Fields.List {
+					tag := ""
+					if fl.Tag != nil {
+						if s, err := strconv.Unquote(fl.Tag.Value); err == nil {
+							tag = strings.Split(reflect.StructTag(s).Get("json"), ",")[0]
+						}
+					}
+					if len(fl.Names) == 0 {
+						out = append(out, field{"(embedded)", typeString(fl.Type), tag})
+						continue
+					}
+					for _, n := range fl.Names {
+						out = append(out, field{n.Name, typeString(fl.Type), tag})
 					}
 				}
-				fail("%s: constant %s is not an integer literal", where, name)
-				return -1
+				return out, true
 			}
 		}
 	}
-	fail("%s: constant %s not found", where, name)
-	return -1
+	note("%s: struct %s not found", p.where, name)
+	return nil, false
 }
+
+// constInt evaluates a package-level integer constant: literals, other constants, + - * / and parentheses, conversions
+// to integer types
+func (p *pkg) constInt(name string, depth int) (int64, bool) {
+	if depth > 8 {
+		return 0, false
+	}
+	for _, f := range p.files {
+		for _, d := range f.Decls {
+			gd, ok := d.(*ast.GenDecl)
+			if !ok || (gd.Tok != token.CONST && gd.Tok != token.VAR) {
+				continue
+			}
+			for _, sp := range gd.Specs {
+				vs := sp.(*ast.ValueSpec)
+				for i, n := range vs.Names {
+					if n.Name == name && i < len(vs.Values) {
+						return p.evalInt(vs.Values[i], depth)
+					}
+				}
+			}
+		}
+	}
+	return 0, false
+}
+
+func (p *pkg) evalInt(e ast.Expr, depth int) (int64, bool) {
+	switch e := e.(type) {
+	case *ast.BasicLit:
+		if e.Kind == token.INT {
+			v, err := strconv.ParseInt(e.Value, 0, 64)
+			return v, err == nil
+		}
+	case *ast.Ident:
+		return p.constInt(e.Name, depth+1)
+	case *ast.ParenExpr:
+		return p.evalInt(e.X, depth)
+	case *ast.CallExpr: // uint64(x), int(x), ...
+		if id, ok := e.Fun.(*ast.Ident); ok && len(e.Args) == 1 && (strings.HasPrefix(id.Name, "int") || strings.HasPrefix(id.Name, "uint") || id.Name == "byte") {
+			return p.evalInt(e.Args[0], depth)
+		}
+	case *ast.BinaryExpr:
+		a, ok1 := p.evalInt(e.X, depth)
+		b, ok2 := p.evalInt(e.Y, depth)
+		if ok1 && ok2 {
+			switch e.Op {
+			case token.ADD:
+				return a + b, true
+			case token.SUB:
+				return a - b, true
+			case token.MUL:
+				return a * b, true
+			case token.QUO:
+				if b != 0 {
+					return a / b, true
+				}
+			case token.SHL:
+				if b >= 0 && b < 62 {
+					return a << uint(b), true
+				}
+			}
+		}
+	}
+	return 0, false
+}
+
+// ----------------------------------------------------------------------------------------------------
+// symbolic values
+// ----------------------------------------------------------------------------------------------------
+
+type sym struct {
+	kind string // proof | field | hash | big | bytes | index | len | zero | opaque | tuple
+	name string // field: field name; index: the literal index
+	arg  *sym
+	elts []*sym // tuple
+}
+
+var opaque = &sym{kind: "opaque"}
+var zero = &sym{kind: "zero"}
+
+func (s *sym) String() string {
+	switch s.kind {
+	case "proof":
+		return "P"
+	case "field":
+		return s.arg.String() + "." + s.name
+	case "hash":
+		return "HexToHash(" + s.arg.String() + ")"
+	case "big":
+		return s.arg.String() + ".Big()"
+	case "bytes":
+		return s.arg.String() + ".Bytes()"
+	case "index":
+		return s.arg.String() + "[" + s.name + "]"
+	case "len":
+		return "len(" + s.arg.String() + ")"
+	case "zero":
+		return "zero"
+	case "tuple":
+		return "tuple"
+	}
+	return "?"
+}
+
+func (s *sym) known() bool { return s != nil && s.kind != "opaque" && s.kind != "zero" }
 
 type wire struct{ acctField, conv, proofField string }
 
-// sel matches <param>.<Field>
-func sel(e ast.Expr, param string) (string, bool) {
-	s, ok := e.(*ast.SelectorExpr)
-	if !ok {
-		return "", false
-	}
-	id, ok := s.X.(*ast.Ident)
-	if !ok || id.Name != param {
-		return "", false
-	}
-	return s.Sel.Name, true
+type facts struct {
+	literals [][]wire // one per ProofAccount literal met
+	counts   []string // the literal the length of P.StorageProof is compared with by !=, or "?<text>"
 }
 
-// hexToHash matches common.HexToHash(<param>.<Field>)
-func hexToHash(e ast.Expr, param string) (string, bool) {
-	c, ok := e.(*ast.CallExpr)
-	if !ok || len(c.Args) != 1 {
-		return "", false
-	}
-	if typeString(c.Fun) != "common.HexToHash" {
-		return "", false
-	}
-	return sel(c.Args[0], param)
+type evaluator struct {
+	p     *pkg
+	acct  []field
+	facts *facts
+	stack []string
 }
 
-func wiring(f *ast.File, acct []field, where string) ([]wire, int64) {
-	var fd *ast.FuncDecl
-	for _, d := range f.Decls {
-		if x, ok := d.(*ast.FuncDecl); ok && x.Recv == nil && x.Name.Name == "verifyMerkleProof" {
-			fd = x
+type env map[string]*sym
+
+func isZeroExpr(e ast.Expr) bool {
+	switch e := e.(type) {
+	case *ast.Ident:
+		return e.Name == "nil" || e.Name == "false"
+	case *ast.CompositeLit:
+		return len(e.Elts) == 0
+	case *ast.BasicLit:
+		return e.Value == "0" || e.Value == `""`
+	}
+	return false
+}
+
+func (ev *evaluator) expr(e ast.Expr, en env) *sym {
+	switch e := e.(type) {
+	case nil:
+		return opaque
+	case *ast.Ident:
+		if v, ok := en[e.Name]; ok {
+			return v
+		}
+		if e.Name == "nil" {
+			return zero
+		}
+		return opaque
+	case *ast.ParenExpr:
+		return ev.expr(e.X, en)
+	case *ast.StarExpr:
+		return ev.expr(e.X, en)
+	case *ast.UnaryExpr:
+		v := ev.expr(e.X, en)
+		if e.Op == token.AND {
+			return v
+		}
+		return opaque
+	case *ast.SelectorExpr:
+		v := ev.expr(e.X, en)
+		if v.known() {
+			return &sym{kind: "field", name: e.Sel.Name, arg: v}
+		}
+		return opaque
+	case *ast.IndexExpr:
+		v := ev.expr(e.X, en)
+		ev.expr(e.Index, en)
+		if v.known() {
+			if bl, ok := e.Index.(*ast.BasicLit); ok {
+				return &sym{kind: "index", name: bl.Value, arg: v}
+			}
+			return &sym{kind: "index", name: "?", arg: v}
+		}
+		return opaque
+	case *ast.SliceExpr:
+		ev.expr(e.X, en)
+		return opaque
+	case *ast.CompositeLit:
+		if typeString(e.Type) == "ProofAccount" {
+			ev.literal(e, en)
+			return opaque
+		}
+		for _, el := range e.Elts {
+			if kv, ok := el.(*ast.KeyValueExpr); ok {
+				ev.expr(kv.Value, en)
+			} else {
+				ev.expr(el, en)
+			}
+		}
+		if len(e.Elts) == 0 {
+			return zero
+		}
+		return opaque
+	case *ast.BinaryExpr:
+		a, b := ev.expr(e.X, en), ev.expr(e.Y, en)
+		ev.compare(e, a, b)
+		return opaque
+	case *ast.CallExpr:
+		return ev.call(e, en)
+	case *ast.KeyValueExpr:
+		return ev.expr(e.Value, en)
+	case *ast.TypeAssertExpr:
+		return ev.expr(e.X, en)
+	case *ast.FuncLit:
+		return opaque
+	}
+	return opaque
+}
+
+func isStorageProofLen(s *sym) bool {
+	return s.kind == "len" && s.arg.kind == "field" && s.arg.name == "StorageProof" && s.arg.arg.kind == "proof"
+}
+
+func (ev *evaluator) compare(e *ast.BinaryExpr, a, b *sym) {
+	var other ast.Expr
+	switch {
+	case isStorageProofLen(a):
+		other = e.Y
+	case isStorageProofLen(b):
+		other = e.X
+	default:
+		return
+	}
+	if e.Op == token.NEQ {
+		if v, ok := ev.p.evalInt(other, 0); ok {
+			ev.facts.counts = append(ev.facts.counts, strconv.FormatInt(v, 10))
+			return
 		}
 	}
-	if fd == nil || fd.Body == nil || len(fd.Type.Params.List) == 0 || len(fd.Type.Params.List[0].Names) == 0 {
-		fail("%s: func verifyMerkleProof not found", where)
-		return nil, -1
+	ev.facts.counts = append(ev.facts.counts, "?len(P.StorageProof) "+e.Op.String()+" ...")
+}
+
+func (ev *evaluator) literal(e *ast.CompositeLit, en env) {
+	byField := map[string]*sym{}
+	for i, el := range e.Elts {
+		if kv, ok := el.(*ast.KeyValueExpr); ok {
+			if k, ok := kv.Key.(*ast.Ident); ok {
+				byField[k.Name] = ev.expr(kv.Value, en)
+			}
+		} else if i < len(ev.acct) {
+			byField[ev.acct[i].name] = ev.expr(el, en)
+		}
 	}
-	param := fd.Type.Params.List[0].Names[0].Name
-	bound := map[string][2]string{} // local -> (conv, proof field)
-	var lit *ast.CompositeLit
-	count := int64(-1)
-	ast.Inspect(fd.Body, func(n ast.Node) bool {
-		switch x := n.(type) {
-		case *ast.AssignStmt:
-			if len(x.Lhs) == 1 && len(x.Rhs) == 1 {
-				id, ok := x.Lhs[0].(*ast.Ident)
-				if !ok {
-					return true
+	var ws []wire
+	for _, af := range ev.acct {
+		v, ok := byField[af.name]
+		switch {
+		case !ok:
+			ws = append(ws, wire{af.name, "unknown", "not set in the ProofAccount literal"})
+		case v.kind == "big" && v.arg.kind == "hash" && v.arg.arg.kind == "field" && v.arg.arg.arg.kind == "proof":
+			ws = append(ws, wire{af.name, "big", v.arg.arg.name})
+		case v.kind == "hash" && v.arg.kind == "field" && v.arg.arg.kind == "proof":
+			ws = append(ws, wire{af.name, "hash", v.arg.name})
+		default:
+			ws = append(ws, wire{af.name, "unknown", v.String()})
+		}
+	}
+	ev.facts.literals = append(ev.facts.literals, ws)
+}
+
+func (ev *evaluator) call(e *ast.CallExpr, en env) *sym {
+	args := make([]*sym, len(e.Args))
+	for i, a := range e.Args {
+		args[i] = ev.expr(a, en)
+	}
+	switch fn := e.Fun.(type) {
+	case *ast.Ident:
+		switch fn.Name {
+		case "len":
+			if len(args) == 1 && args[0].known() {
+				return &sym{kind: "len", arg: args[0]}
+			}
+			return opaque
+		case "new", "make", "append", "copy", "panic":
+			return opaque
+		}
+		if fd, ok := ev.p.funcs[fn.Name]; ok {
+			return ev.inline(fd, nil, args)
+		}
+		return opaque
+	case *ast.SelectorExpr:
+		full := typeString(fn)
+		if full == "common.HexToHash" && len(args) == 1 {
+			if args[0].known() {
+				return &sym{kind: "hash", arg: args[0]}
+			}
+			return opaque
+		}
+		recv := ev.expr(fn.X, en)
+		if len(args) == 0 && recv.known() {
+			switch fn.Sel.Name {
+			case "Big":
+				return &sym{kind: "big", arg: recv}
+			case "Bytes":
+				return &sym{kind: "bytes", arg: recv}
+			}
+		}
+		// a method of this package (the receiver is an identifier that is not an imported package: heuristically, a
+		// method name the package declares exactly once)
+		if fd, ok := ev.p.meths[fn.Sel.Name]; ok {
+			if id, isId := fn.X.(*ast.Ident); !isId || !ev.isImport(id.Name) {
+				return ev.inline(fd, recv, args)
+			}
+		}
+		return opaque
+	}
+	return opaque
+}
+
+func (ev *evaluator) isImport(name string) bool {
+	for _, f := range ev.p.files {
+		for _, im := range f.Imports {
+			path, _ := strconv.Unquote(im.Path.Value)
+			n := filepath.Base(path)
+			if im.Name != nil {
+				n = im.Name.Name
+			}
+			if n == name {
+				return true
+			}
+		}
+	}
+	return false
+}
+
+// inline evaluates a function of the package on symbolic arguments and returns what it returns
+func (ev *evaluator) inline(fd *ast.FuncDecl, recv *sym, args []*sym) *sym {
+	for _, s := range ev.stack {
+		if s == fd.Name.Name {
+			return opaque // recursion
+		}
+	}
+	if len(ev.stack) > 12 {
+		return opaque
+	}
+	ev.stack = append(ev.stack, fd.Name.Name)
+	defer func() { ev.stack = ev.stack[:len(ev.stack)-1] }()
+	en := env{}
+	if fd.Recv != nil && len(fd.Recv.List) == 1 && len(fd.Recv.List[0].Names) == 1 && recv != nil {
+		en[fd.Recv.List[0].Names[0].Name] = recv
+	}
+	i := 0
+	for _, pl := range fd.Type.Params.List {
+		for _, n := range pl.Names {
+			if i < len(args) {
+				en[n.Name] = args[i]
+			}
+			i++
+		}
+		if len(pl.Names) == 0 {
+			i++
+		}
+	}
+	var named []string
+	if fd.Type.Results != nil {
+		for _, rl := range fd.Type.Results.List {
+			for _, n := range rl.Names {
+				named = append(named, n.Name)
+			}
+		}
+	}
+	var rets [][]*sym
+	ev.block(fd.Body.List, en, &rets, named)
+	return mergeReturns(rets)
+}
+
+// mergeReturns: per result position, the unique known value among the return statements (zero values = error exits)
+func mergeReturns(rets [][]*sym) *sym {
+	n := 0
+	for _, r := range rets {
+		if len(r) > n {
+			n = len(r)
+		}
+	}
+	if n == 0 {
+		return opaque
+	}
+	out := make([]*sym, n)
+	for i := range out {
+		out[i] = opaque
+		for _, r := range rets {
+			if i < len(r) && r[i].known() {
+				if out[i].known() && out[i].String() != r[i].String() {
+					out[i] = &sym{kind: "opaque"}
+					break
 				}
-				if fld, ok := hexToHash(x.Rhs[0], param); ok {
-					if _, dup := bound[id.Name]; dup {
-						fail("%s: %s assigned twice", where, id.Name)
-					}
-					bound[id.Name] = [2]string{"hash", fld}
-				} else if c, ok := x.Rhs[0].(*ast.CallExpr); ok && len(c.Args) == 0 {
-					if s, ok := c.Fun.(*ast.SelectorExpr); ok && s.Sel.Name == "Big" {
-						if fld, ok := hexToHash(s.X, param); ok {
-							if _, dup := bound[id.Name]; dup {
-								fail("%s: %s assigned twice", where, id.Name)
-							}
-							bound[id.Name] = [2]string{"big", fld}
+				out[i] = r[i]
+			}
+		}
+	}
+	if n == 1 {
+		return out[0]
+	}
+	return &sym{kind: "tuple", elts: out}
+}
+
+func (ev *evaluator) assign(lhs []ast.Expr, rhs []ast.Expr, en env) {
+	if len(rhs) == 1 && len(lhs) > 1 {
+		v := ev.expr(rhs[0], en)
+		for i, l := range lhs {
+			if id, ok := l.(*ast.Ident); ok && id.Name != "_" {
+				if v.kind == "tuple" && i < len(v.elts) {
+					en[id.Name] = v.elts[i]
+				} else {
+					en[id.Name] = opaque
+				}
+			}
+		}
+		return
+	}
+	vals := make([]*sym, len(rhs))
+	for i, r := range rhs {
+		vals[i] = ev.expr(r, en)
+	}
+	for i, l := range lhs {
+		if id, ok := l.(*ast.Ident); ok && id.Name != "_" && i < len(vals) {
+			en[id.Name] = vals[i]
+		} else {
+			ev.expr(l, en)
+		}
+	}
+}
+
+func (ev *evaluator) block(stmts []ast.Stmt, en env, rets *[][]*sym, named []string) {
+	for _, s := range stmts {
+		ev.stmt(s, en, rets, named)
+	}
+}
+
+func (ev *evaluator) stmt(s ast.Stmt, en env, rets *[][]*sym, named []string) {
+	switch s := s.(type) {
+	case nil:
+	case *ast.AssignStmt:
+		ev.assign(s.Lhs, s.Rhs, en)
+	case *ast.DeclStmt:
+		if gd, ok := s.Decl.(*ast.GenDecl); ok {
+			for _, sp := range gd.Specs {
+				if vs, ok := sp.(*ast.ValueSpec); ok {
+					if len(vs.Values) > 0 {
+						lhs := make([]ast.Expr, len(vs.Names))
+						for i, n := range vs.Names {
+							lhs[i] = n
+						}
+						ev.assign(lhs, vs.Values, en)
+					} else {
+						for _, n := range vs.Names {
+							en[n.Name] = opaque
 						}
 					}
 				}
 			}
-		case *ast.CompositeLit:
-			if typeString(x.Type) == "ProofAccount" {
-				if lit != nil {
-					fail("%s: more than one ProofAccount literal", where)
-				}
-				lit = x
-			}
-		case *ast.BinaryExpr:
-			if c, ok := x.X.(*ast.CallExpr); ok && typeString(c.Fun) == "len" && len(c.Args) == 1 {
-				if fld, ok := sel(c.Args[0], param); ok && fld == "StorageProof" {
-					bl, ok := x.Y.(*ast.BasicLit)
-					if !ok || bl.Kind != token.INT || x.Op != token.NEQ {
-						fail("%s: len(%s.StorageProof) is not compared by != with an integer literal", where, param)
-					} else if count >= 0 {
-						fail("%s: len(%s.StorageProof) compared more than once", where, param)
-					} else {
-						count, _ = strconv.ParseInt(bl.Value, 0, 64)
-					}
+		}
+	case *ast.ExprStmt:
+		ev.expr(s.X, en)
+	case *ast.ReturnStmt:
+		var r []*sym
+		if len(s.Results) == 0 {
+			for _, n := range named {
+				if v, ok := en[n]; ok {
+					r = append(r, v)
+				} else {
+					r = append(r, opaque)
 				}
 			}
-		}
-		return true
-	})
-	if count < 0 {
-		fail("%s: no comparison of len(%s.StorageProof)", where, param)
-	}
-	if lit == nil {
-		fail("%s: no ProofAccount literal in verifyMerkleProof", where)
-		return nil, count
-	}
-	byField := map[string]ast.Expr{}
-	for i, el := range lit.Elts {
-		if kv, ok := el.(*ast.KeyValueExpr); ok {
-			k, ok := kv.Key.(*ast.Ident)
-			if !ok {
-				fail("%s: ProofAccount literal key is not an identifier", where)
-				continue
+		} else if len(s.Results) == 1 {
+			v := ev.expr(s.Results[0], en)
+			if v.kind == "tuple" {
+				r = v.elts
+			} else {
+				if isZeroExpr(s.Results[0]) {
+					v = zero
+				}
+				r = []*sym{v}
 			}
-			byField[k.Name] = kv.Value
-		} else if i < len(acct) {
-			byField[acct[i].name] = el
+		} else {
+			for _, x := range s.Results {
+				v := ev.expr(x, en)
+				if isZeroExpr(x) {
+					v = zero
+				}
+				r = append(r, v)
+			}
+		}
+		*rets = append(*rets, r)
+	case *ast.IfStmt:
+		ev.stmt(s.Init, en, rets, named)
+		ev.expr(s.Cond, en)
+		ev.block(s.Body.List, en, rets, named)
+		ev.stmt(s.Else, en, rets, named)
+	case *ast.BlockStmt:
+		ev.block(s.List, en, rets, named)
+	case *ast.ForStmt:
+		ev.stmt(s.Init, en, rets, named)
+		ev.expr(s.Cond, en)
+		ev.block(s.Body.List, en, rets, named)
+		ev.stmt(s.Post, en, rets, named)
+	case *ast.RangeStmt:
+		ev.expr(s.X, en)
+		if id, ok := s.Key.(*ast.Ident); ok {
+			en[id.Name] = opaque
+		}
+		if id, ok := s.Value.(*ast.Ident); ok {
+			en[id.Name] = opaque
+		}
+		ev.block(s.Body.List, en, rets, named)
+	case *ast.SwitchStmt:
+		ev.stmt(s.Init, en, rets, named)
+		ev.expr(s.Tag, en)
+		for _, c := range s.Body.List {
+			if cc, ok := c.(*ast.CaseClause); ok {
+				for _, x := range cc.List {
+					ev.expr(x, en)
+				}
+				ev.block(cc.Body, en, rets, named)
+			}
+		}
+	case *ast.TypeSwitchStmt:
+		for _, c := range s.Body.List {
+			if cc, ok := c.(*ast.CaseClause); ok {
+				ev.block(cc.Body, en, rets, named)
+			}
+		}
+	case *ast.DeferStmt:
+		ev.expr(s.Call, en)
+	case *ast.GoStmt:
+		ev.expr(s.Call, en)
+	case *ast.LabeledStmt:
+		ev.stmt(s.Stmt, en, rets, named)
+	case *ast.IncDecStmt:
+		ev.expr(s.X, en)
+	}
+}
+
+// wiring: the symbolic evaluation of verifyMerkleProof
+func (p *pkg) wiring(acct []field) ([]wire, int64, string) {
+	unknownAll := func(why string) []wire {
+		var ws []wire
+		for _, af := range acct {
+			ws = append(ws, wire{af.name, "unknown", why})
+		}
+		return ws
+	}
+	fd, ok := p.funcs["verifyMerkleProof"]
+	if !ok || fd.Type.Params == nil || len(fd.Type.Params.List) == 0 || len(fd.Type.Params.List[0].Names) == 0 {
+		note("%s: func verifyMerkleProof not found", p.where)
+		return unknownAll("func verifyMerkleProof not found"), 0, "func verifyMerkleProof not found"
+	}
+	ev := &evaluator{p: p, acct: acct, facts: &facts{}}
+	args := []*sym{{kind: "proof"}}
+	for i := 1; i < 16; i++ {
+		args = append(args, opaque)
+	}
+	ev.inline(fd, nil, args)
+
+	// the account literal(s)
+	var ws []wire
+	switch {
+	case len(ev.facts.literals) == 0:
+		note("%s: no ProofAccount literal reachable from verifyMerkleProof", p.where)
+		ws = unknownAll("no ProofAccount literal reachable from verifyMerkleProof")
+	default:
+		ws = ev.facts.literals[0]
+		for _, other := range ev.facts.literals[1:] {
+			if fmt.Sprint(other) != fmt.Sprint(ws) {
+				note("%s: ProofAccount literals with different wirings", p.where)
+				ws = unknownAll("ProofAccount literals with different wirings")
+				break
+			}
 		}
 	}
-	var out []wire
-	for _, af := range acct {
-		v, ok := byField[af.name]
-		if !ok {
-			fail("%s: ProofAccount literal does not set %s", where, af.name)
-			continue
+	for _, w := range ws {
+		if w.conv == "unknown" {
+			note("%s: ProofAccount.%s: %s", p.where, w.acctField, w.proofField)
 		}
-		id, ok := v.(*ast.Ident)
-		if !ok {
-			fail("%s: ProofAccount.%s is not set from a local variable", where, af.name)
-			continue
-		}
-		b, ok := bound[id.Name]
-		if !ok {
-			fail("%s: ProofAccount.%s = %s, which is not bound by common.HexToHash(%s.F)[.Big()]", where, af.name, id.Name, param)
-			continue
-		}
-		out = append(out, wire{af.name, b[0], b[1]})
 	}
-	return out, count
+	// the storage proof count
+	count, why := int64(0), ""
+	set := map[string]bool{}
+	for _, c := range ev.facts.counts {
+		set[c] = true
+	}
+	keys := []string{}
+	for c := range set {
+		keys = append(keys, c)
+	}
+	sort.Strings(keys)
+	switch {
+	case len(keys) == 0:
+		why = "no comparison of len(P.StorageProof) reachable from verifyMerkleProof"
+	case len(keys) > 1 || strings.HasPrefix(keys[0], "?"):
+		why = "len(P.StorageProof) is compared otherwise than by != with one integer: " + strings.Join(keys, ", ")
+	default:
+		count, _ = strconv.ParseInt(keys[0], 10, 64)
+	}
+	if why != "" {
+		note("%s: %s", p.where, why)
+	}
+	return ws, count, why
 }
 
 func main() {
@@ -277,18 +777,31 @@ func main() {
 	}
 	fset := token.NewFileSet()
 	var b bytes.Buffer
-	b.WriteString("(* GENERATED by tools/gotocoq/evmproof from x/xibc/clients/light-clients/{eth,bsc}/types/{<c>.pb.go,<c>.go,keys.go,\n   client_state.go} -- do not edit. *)\nFrom Teleport Require Import Base.Bytes.\nLocal Open Scope N_scope.\n\n")
+	b.WriteString("(* GENERATED by tools/gotocoq/evmproof from the packages x/xibc/clients/light-clients/{eth,bsc}/types -- do not edit.\n   An item the translator could not determine is an entry with conversion \"unknown\", the number 0 or an empty list. *)\nFrom Teleport Require Import Base.Bytes.\nLocal Open Scope N_scope.\n\n")
 	for _, c := range []string{"eth", "bsc"} {
 		dir := filepath.Join("x/xibc/clients/light-clients", c, "types")
-		parse := func(name string) *ast.File {
-			f, err := parser.ParseFile(fset, filepath.Join(*repo, dir, name), nil, 0)
-			if err != nil {
-				fail("%s/%s: %v", dir, name, err)
-				return &ast.File{Name: ast.NewIdent("types")}
+		var pf, sf, acct []field
+		var ws []wire
+		var count int64
+		var why string
+		consts := map[string]int64{}
+		func() {
+			defer func() { // never fail: whatever happens, every definition of this client is emitted below
+				if r := recover(); r != nil {
+					note("%s: internal error: %v", c, r)
+				}
+			}()
+			p := loadPkg(fset, *repo, dir)
+			pf, _ = p.structFields("Proof")
+			sf, _ = p.structFields("StorageResult")
+			acct, _ = p.structFields("ProofAccount")
+			for _, cn := range []string{"paramsIndex", "paramsLenght"} {
+				if v, ok := p.constInt(cn, 0); ok && v >= 0 {
+					consts[cn] = v
+				}
 			}
-			return f
-		}
-		pb, plain, keys, cs := parse(c+".pb.go"), parse(c+".go"), parse("keys.go"), parse("client_state.go")
+			ws, count, why = p.wiring(acct)
+		}()
 		emitFields := func(name string, fs []field) {
 			fmt.Fprintf(&b, "(* Go name, Go type, json tag *)\nDefinition %s_%s_fields : list (bytes * bytes * bytes) :=\n  [", c, name)
 			for i, f := range fs {
@@ -299,12 +812,10 @@ func main() {
 			}
 			b.WriteString("].\n\n")
 		}
-		emitFields("Proof", structFields(pb, "Proof", dir+"/"+c+".pb.go"))
-		emitFields("StorageResult", structFields(pb, "StorageResult", dir+"/"+c+".pb.go"))
-		acct := structFields(plain, "ProofAccount", dir+"/"+c+".go")
+		emitFields("Proof", pf)
+		emitFields("StorageResult", sf)
 		emitFields("ProofAccount", acct)
-		ws, count := wiring(cs, acct, dir+"/client_state.go")
-		fmt.Fprintf(&b, "(* verifyMerkleProof: ProofAccount field (RLP order), conversion (hash = common.HexToHash(s), big = common.HexToHash(s).Big()),\n   Proof field *)\nDefinition %s_account_wiring : list (bytes * bytes * bytes) :=\n  [", c)
+		fmt.Fprintf(&b, "(* verifyMerkleProof and what it calls: ProofAccount field (RLP order), conversion (hash = common.HexToHash(s),\n   big = common.HexToHash(s).Big(), unknown = not determined: the third component says why), Proof field *)\nDefinition %s_account_wiring : list (bytes * bytes * bytes) :=\n  [", c)
 		for i, w := range ws {
 			if i > 0 {
 				b.WriteString(";\n   ")
@@ -312,22 +823,22 @@ func main() {
 			fmt.Fprintf(&b, "(%s, %s, %s) (* %s *)", coqBytes(w.acctField), coqBytes(w.conv), coqBytes(w.proofField), cmt(w.acctField+" := "+w.conv+"("+w.proofField+")"))
 		}
 		b.WriteString("].\n\n")
-		if count < 0 {
-			count = 0
-			// already reported
+		if why != "" {
+			fmt.Fprintf(&b, "(* not determined: %s *)\n", cmt(why))
 		}
 		fmt.Fprintf(&b, "Definition %s_storage_proof_count : N := %d.\n", c, count)
-		pi, pl := intConst(keys, "paramsIndex", dir+"/keys.go"), intConst(keys, "paramsLenght", dir+"/keys.go")
-		if pi < 0 {
-			pi = 0
+		for _, cn := range []string{"paramsIndex", "paramsLenght"} {
+			v, ok := consts[cn]
+			if !ok {
+				note("%s: constant %s not determined", dir, cn)
+				b.WriteString("(* not determined *)\n")
+			}
+			fmt.Fprintf(&b, "Definition %s_%s : N := %d.\n", c, cn, v)
 		}
-		if pl < 0 {
-			pl = 0
-		}
-		fmt.Fprintf(&b, "Definition %s_paramsIndex : N := %d.\nDefinition %s_paramsLenght : N := %d.\n\n", c, pi, c, pl)
+		b.WriteString("\n")
 	}
-	b.WriteString("Definition evmproof_translator_errors : list bytes :=\n  [")
-	for i, e := range errs {
+	b.WriteString("(* what the translator could not determine (information only; the obligations read the items above) *)\nDefinition evmproof_notes : list bytes :=\n  [")
+	for i, e := range notes {
 		if i > 0 {
 			b.WriteString(";\n   ")
 		}
